@@ -16,7 +16,7 @@ RULE = ("one Hypothesis-generated scenario with input-sensitive deterministic be
         "(max_advance excluded); micro-topologies get every schedule deviating from FIFO in <= 2 decision points. "
         "non-trivial = the variants really differed in their global event order and the scenario has a "
         "connection; distinct = distinct base case hashes"
-        "; in addition four long runs (until 80 / 120 / 1100) under FIFO, LIFO and a starved simulator, and the "
+        "; in addition six long runs (until 80 / 120 / 1100, strides of hundreds, 24 simulators) under FIFO, LIFO and a starved simulator, and the "
         "extreme policies (LIFO, steps first, get_data first, each simulator starved) before every schedule enumeration")
 ASSUMPTIONS = [
     "scripted deterministic simulators; dict equality after JSON normalisation",
@@ -272,7 +272,7 @@ def shard(prop, tier, seed, shard, nshards):
     acc.extra["enumeration_complete"] = complete
     # long runs (DESIGN 10.7 round 5): the complete variant set once per long scenario with until <= 200
     for k, (name, scn) in enumerate(sorted(gen.long_scenarios().items())):
-        if scn["until"] > 200 or (k + 9) % nshards != shard:
+        if (scn["until"] > 200 and not scn.get("few_steps")) or (k + 9) % nshards != shard:
             continue
         for f in check_case({"scenario": copy.deepcopy(scn), "variants": {
                 "picks": [1, 2, 0, 1, 2, 2, 1, 0], "starve": scn["sims"][1]["sid"], "perm": [1, 0, 2, 3],
